@@ -35,7 +35,9 @@ class FactoryRun:
         run = self
         spec = self.specs[h]
 
-        async def body() -> None:
+        delay = spec.get("startDelay")
+
+        async def run_body(task_status: Any) -> None:
             ctx = current_context()
             parent = ctx.parent
             if run.factory_ctx is None:
@@ -47,8 +49,13 @@ class FactoryRun:
                 run.spawn(ch, "soon")
             cancelled = anyio.get_cancelled_exc_class()
             try:
+                if task_status is not None:
+                    # a task that takes `task_status`: start_task() returns only once it has called started()
+                    await anyio.sleep(delay * TICK)
+                    task_status.started()
+                    run.log("startedCalled", h)
                 if "ends" in spec["beh"]:
-                    await anyio.sleep(spec["beh"]["ends"] * TICK)
+                    await anyio.sleep((spec["beh"]["ends"] - (delay or 0)) * TICK)
                 else:
                     await anyio.sleep_forever()
             except cancelled:
@@ -61,6 +68,13 @@ class FactoryRun:
                 e = EXN[exc]()
                 e.h = h
                 raise e
+
+        if delay:
+            async def body(*, task_status: Any) -> None:
+                await run_body(task_status)
+        else:
+            async def body() -> None:  # type: ignore[misc]
+                await run_body(None)
 
         body.__name__ = f"t{h}"
         return body
@@ -123,6 +137,11 @@ class FactoryRun:
                             await self.spawn_async(h)
                 elif via == "soon":
                     self.spawn(h, via, step.get("cancelNow", False))
+                elif self.specs[h].get("startDelay"):
+                    # start_task() of a task that calls started() late: awaited by a helper so that the
+                    # script goes on (and samples the handle set while the start is pending)
+                    tg.start_soon(self.spawn_async, h)
+                    await anyio.lowlevel.checkpoint()
                 else:
                     await self.spawn_async(h)
             elif op == "observe":
@@ -134,6 +153,7 @@ class FactoryRun:
                     self.log("cancelReq", step["h"])
             elif op == "wait":
                 if step["h"] in self.handles:
+                    self.log("waitAsked", step["h"])
                     tg.start_soon(self.waiter, step["h"])
             elif op == "res":
                 owner.add_resource(TYPES[0](step["v"]), f"late{step['v']}")
